@@ -740,10 +740,9 @@ REG.note('C03', 'assumptions', '_filterSuites(version): version is an upper boun
                                'both call sites')
 REG.note('C20', 'assumptions', 'the *_draft_00 ChaCha20 code points are not IANA-registered; they are read like the cipher '
                                'they name with the draft\'s 4-byte fixed IV')
-REG.note('C20', 'not_built', 'key-exchange dispatch chains in _handshakeClientAsyncHelper / _handshakeServerAsyncHelper / '
-                             '_clientKeyExchange / ServerKeyExchange.parse (statement contracts on the if/elif chains); '
-                             'covered only through the O-lists facts on srpAllSuites, dhAllSuites, ecdhAllSuites, '
-                             'certAllSuites, certSuites, ecdheEcdsaSuites, dheDsaSuites that those chains test')
+REG.note('C20', 'not_built', 'ServerKeyExchange.parse / write dispatch on the suite (statement contracts on the if/elif chains); the '
+                             'client and server KeyExchange-class dispatch is under contract in m2_client (_handshakeClientAsyncHelper/flow) '
+                             'and m2_server (_handshakeServerAsyncHelper/key-exchange-dispatch)')
 REG.note('C20', 'not_built', 'that the cipherfactory constructors build the cipher their name says (tag length 8 for '
                              'createAESCCM_8, ...) is checked concretely only (cross-check "factories"), contracts on '
                              'the cipher classes belong to C09')
